@@ -1,6 +1,6 @@
 (* PV.C11.JdProofs — lemmas about create_joint_distribution / split_joint_distribution. *)
-From Coq Require Import List Bool PArith Arith Lia Permutation.
-From PV Require Import Base.PyData Base.Expr C11.Model C11.Proofs C11.NumModel C11.JdModel.
+From Coq Require Import List Bool PArith Arith Lia Permutation Reals Lra.
+From PV Require Import Base.PyData Base.Expr C11.Model C11.Proofs C11.NumModel C11.NumProofs C11.JdModel.
 Import ListNotations.
 Local Open Scope nat_scope.
 
@@ -28,6 +28,37 @@ Proof.
   - destruct (Pos.eqb x n); [|discriminate]. injection H as H1. right. left. exact H1.
   - destruct (index_of x ns) as [k|]; [|discriminate]. injection H as H1. apply in_or_app. right.
     exact (mget_Some_In V k k p H1).
+Qed.
+
+(* a selection of whole distributions lists its names in collection order *)
+Lemma flat_map_filter {A B} (h : A -> bool) (g : A -> list B) (l : list A) :
+  flat_map g (filter h l) = flat_map (fun a => if h a then g a else []) l.
+Proof. induction l as [|a l IH]; [reflexivity|]. cbn [filter flat_map]. destruct (h a); cbn [flat_map]; rewrite IH; reflexivity. Qed.
+
+Lemma whole_dists_in_order {E} (keep : dist E -> bool) (r : coll E) : NoDup (names r) ->
+  let s := flat_map (fun d => if keep d then dnames d else []) r in
+  filter (fun n => memp n s) (names r) = s.
+Proof.
+  induction r as [|d tl IH]; intros Hnd s; [reflexivity|].
+  rewrite names_cons in *. pose proof (NoDup_app_r _ _ Hnd) as Hnd'. specialize (IH Hnd'). cbv zeta in IH.
+  set (st := flat_map (fun d => if keep d then dnames d else []) tl) in *.
+  assert (Hst : forall n, In n st -> In n (names tl)).
+  { intros n Hn. unfold st in Hn. apply in_flat_map in Hn. destruct Hn as [d' [Hd' Hn]].
+    destruct (keep d'); [|destruct Hn]. apply In_names. exists d'. split; assumption. }
+  unfold s. cbn [flat_map]. fold st. rewrite filter_app. destruct (keep d).
+  - f_equal.
+    + apply filter_all. intros n Hn. apply memp_In. apply in_or_app. left. exact Hn.
+    + transitivity (filter (fun n => memp n st) (names tl)); [|exact IH]. apply filter_ext_in. intros n Hn.
+      destruct (memp n (dnames d ++ st)) eqn:M1; destruct (memp n st) eqn:M2; try reflexivity.
+      * apply memp_In in M1. apply in_app_or in M1. destruct M1 as [M1|M1].
+        -- exfalso. eapply NoDup_app_disj; [exact Hnd | exact M1 | exact Hn].
+        -- apply memp_false_iff in M2. contradiction.
+      * apply memp_In in M2. apply memp_false_iff in M1. exfalso. apply M1. apply in_or_app. right. exact M2.
+  - cbn [app]. transitivity ([] ++ filter (fun n => memp n st) (names tl)); [|exact IH]. f_equal.
+    destruct (filter (fun n => memp n st) (dnames d)) as [|z zs] eqn:Ez; [first [reflexivity | exact Ez]|]. exfalso.
+    assert (Hz : In z (filter (fun n => memp n st) (dnames d))) by (rewrite Ez; left; reflexivity).
+    apply filter_In in Hz. destruct Hz as [Hz1 Hz2]. apply memp_In in Hz2.
+    eapply NoDup_app_disj; [exact Hnd | exact Hz1 | apply Hst; exact Hz2].
 Qed.
 
 Section JdFacts.
@@ -87,6 +118,40 @@ Section JdFacts.
     rewrite <- Hord in Hi, Hj. exists i, j. split; [exact Hi|]. split; [exact Hj|]. split; [exact Hne | exact Hc].
   Qed.
 
+  (* rvs=None: the default selection lists the etas in collection order, so the covariance names follow the
+     template without any further condition *)
+  Variable fixed : id -> bool.
+  Lemma default_rvs_in_order (r : scoll) : wf sym r = true ->
+    default_rvs fixed r = filter (fun n => memp n (default_rvs fixed r)) (names r).
+  Proof.
+    intros Hwf. unfold default_rvs, iiv, with_levels. rewrite flat_map_filter. symmetry.
+    assert (E : forall l : scoll,
+              flat_map (fun a => if memp (dlevel a) [L_IIV] then (if existsb fixed (dsyms a) then [] else dnames a) else []) l =
+              flat_map (fun d => if memp (dlevel d) [L_IIV] && negb (existsb fixed (dsyms d)) then dnames d else []) l).
+    { intros l. apply flat_map_ext. intros a. destruct (memp (dlevel a) [L_IIV]); destruct (existsb fixed (dsyms a)); reflexivity. }
+    rewrite E. apply (whole_dists_in_order (fun d => memp (dlevel d) [L_IIV] && negb (existsb fixed (dsyms d))) r (wf_NoDup sym r Hwf)).
+  Qed.
+
+  Lemma cjd_default_new_cov_lemma pn p (r r' : scoll) p' x y d : wf sym r = true ->
+    create_joint_distribution_default F f0 fmul fsqrt fround7 ftenth ie_init fixed pn p r = Ok (r', p') ->
+    In x (default_rvs fixed r) -> In y (default_rvs fixed r) -> In d r -> In x (dnames d) -> ~ In y (dnames d) ->
+    exists i j, index_of x (default_rvs fixed r) = Some i /\ index_of y (default_rvs fixed r) = Some j /\ i <> j /\
+      cov sym None r' x y = Some (sym_mk_cov (nth (Nat.min i j) pn 1%positive) (nth (Nat.max i j) pn 1%positive)).
+  Proof.
+    intros Hwf H. unfold create_joint_distribution_default in H.
+    apply (cjd_new_cov_lemma _ pn p r r' p' x y d Hwf H). apply default_rvs_in_order. exact Hwf.
+  Qed.
+
+  (* the default selection: IIV etas only, none with a fixed parameter *)
+  Lemma default_rvs_spec (r : scoll) x : In x (default_rvs fixed r) <->
+    exists d, In d r /\ In x (dnames d) /\ memp (dlevel d) [L_IIV] = true /\ existsb fixed (dsyms d) = false.
+  Proof.
+    unfold default_rvs, iiv, with_levels. rewrite in_flat_map. split.
+    - intros [d [Hd Hx]]. apply filter_In in Hd. destruct Hd as [Hd Hl]. destruct (existsb fixed (dsyms d)) eqn:Ef; [destruct Hx|].
+      exists d. auto.
+    - intros [d [Hd [Hx [Hl Hf]]]]. exists d. split; [apply filter_In; split; assumption|]. rewrite Hf. exact Hx.
+  Qed.
+
   (* ---- split_joint_distribution ---- *)
   Lemma split_names_lemma inds p (r : scoll) : Permutation (names (fst (split inds p r))) (names r).
   Proof. apply unjoin_names_perm. Qed.
@@ -114,3 +179,31 @@ Section JdFacts.
     apply (variance_sym_in_syms _ x). unfold sunjoin. rewrite unjoin_variances_lemma by assumption. exact Hv.
   Qed.
 End JdFacts.
+
+(* ---- _choose_cov_param_init, individual-estimates branch, over R: when the covariance matrix built from the
+   correlation of the individual estimates passes the PSD test, the initial estimate is
+   round(sd2 * corr[1][0] * sd1, 7), with 0.0001 in place of an exact zero ---- *)
+Lemma rget_map_map (g : R -> R) (M : list (list R)) i j : i < length M -> j < length (nth i M []) ->
+  fget R 0%R (map (map g) M) i j = g (fget R 0%R M i j).
+Proof.
+  intros Hi Hj. unfold fget.
+  rewrite (nth_indep (map _ M) [] (map g [])) by (rewrite map_length; exact Hi).
+  rewrite (map_nth (map g) M [] i).
+  rewrite (nth_indep (map g _) 0%R (g 0%R)) by (rewrite map_length; exact Hj).
+  rewrite (map_nth g). reflexivity.
+Qed.
+
+Lemma ie_cov_init_formula_lemma (fround7 : R -> R) (small : R) (is_psd : list (list R) -> bool)
+  (repair : list (list R) -> list (list R)) (p : params R) (parent1 parent2 : id) (corr : list (list R)) :
+  length corr = 2 ->
+  is_psd (ie_cov_matrix R 0%R Rmult sqrt Rplus ris0 small p parent1 parent2 corr) = true ->
+  ie_cov_init R 0%R Rmult sqrt fround7 Rplus ris0 small is_psd repair p parent1 parent2 corr =
+  fround7 (let c := (sqrt (pget R 0%R p parent2) * fget R 0%R corr 1 0 * sqrt (pget R 0%R p parent1))%R in
+           if ris0 c then small else c).
+Proof.
+  intros Hl Hpsd. unfold ie_cov_init, nearest_psd. rewrite Hpsd. f_equal. unfold ie_cov_matrix.
+  set (sd := [sqrt (pget R 0%R p parent1); sqrt (pget R 0%R p parent2)]).
+  destruct (corr2cov_sq corr sd) as [CL CR].
+  rewrite rget_map_map by (rewrite ?CL; try (rewrite (CR (nth 1 _ [])); [|apply nth_In; rewrite CL]); cbn; lia).
+  rewrite rget_corr2cov by (cbn; lia). reflexivity.
+Qed.
